@@ -13,7 +13,7 @@ ANCHORS = ['txtorcon/endpoints.py', 'txtorcon/torconfig.py', 'txtorcon/controlle
 RULE = ('existing SOCKSPort configurations {no answer, unset with/without a __SocksPort default, 1..4 entries mixing "9050", "127.0.0.1:9050", '
         '"unix:/p", "0"/"auto", with and without trailing option words} x requested port {none, one that is configured, a prefix/substring '
         'of a configured one, an absent one} through _create_socks_endpoint (control protocol) and TorConfig.create_socks_endpoint / '
-        'socks_endpoint; fallback: every sequence of {ok, ConnectError, other error} over the two well-known ports through '
+        'socks_endpoint; fallback: every sequence of {ok, ConnectError, other error, connection accepted then a SOCKS-level error reply} over the two well-known ports through '
         'TorClientEndpoint.connect on a MemoryReactor. The product is enumerated in both tiers. non-trivial = Tor has at least one entry '
         'or an attempt fails; distinct = distinct cells')
 TRUSTED = ["the fake Tor's GETCONF/SETCONF semantics; MemoryReactor for connection attempts; set iteration order among several usable entries is "
@@ -46,7 +46,7 @@ def gen_cases(rng, tier):
             continue    # Tor's own choice of port cannot be denoted from the configuration line (outside the quantifier)
         yield {'api': 'config', 'store': kind, 'lines': lines, 'req': req}
     for n in range(0, 3):
-        for outs in itertools.product(['ok', 'ce', 'oe'], repeat=n):
+        for outs in itertools.product(['ok', 'ce', 'oe', 'se'], repeat=n):
             yield {'api': 'fallback', 'outs': list(outs)}
 
 
@@ -135,6 +135,13 @@ def run_fallback(c, reactor):
             proto.makeConnection(tr)
             proto.dataReceived(b'\x05\x00')
             proto.dataReceived(b'\x05\x00\x00\x01\x01\x02\x03\x04\x00\x50')
+        elif o == 'se':
+            # the port accepts the connection; Tor then refuses the request at the SOCKS level (host unreachable)
+            proto = factory.buildProtocol(None)
+            tr = proto_helpers.StringTransport()
+            proto.makeConnection(tr)
+            proto.dataReceived(b'\x05\x00')
+            proto.dataReceived(b'\x05\x04\x00\x01\x00\x00\x00\x00\x00\x00')
         elif o == 'ce':
             e = error.ConnectionRefusedError()
             e.tag = k
@@ -152,7 +159,7 @@ def run_fallback(c, reactor):
 
 def driver_line(c):
     if c['api'] == 'fallback':
-        outs = ','.join('ok' if o == 'ok' else '%s:%d' % (o, k) for k, o in enumerate(c['outs'])) or '-'
+        outs = ','.join('ok' if o == 'ok' else '%s:%d' % ('oe' if o == 'se' else o, k) for k, o in enumerate(c['outs'])) or '-'
         return 'fallback %s %s' % (','.join(str(p) for p in PORTS), outs)
     req = '~' if c['req'] is None else hexs(c['req'])
     if c['api'] == 'config':
@@ -196,6 +203,9 @@ def spec_for(c, im):
             if outs[k] == 'oe':
                 result = 'failed:RuntimeError:%d' % k
                 break
+            if outs[k] == 'se':
+                result = 'failed:HostUnreachableError:?'
+                break
             last = k
             result = 'failed:ConnectionRefusedError:%d' % last
         return {'attempts': exp_attempts, 'result': result}
@@ -219,7 +229,8 @@ def run_cases(cases, drv, tier):
                 if mr.startswith('failed:'):
                     mr = 'failed:ConnectionRefusedError:' + mr.split(':')[1]
                 elif mr.startswith('raised:'):
-                    mr = 'failed:RuntimeError:' + mr.split(':')[1]
+                    k_ = int(mr.split(':')[1])
+                    mr = 'failed:HostUnreachableError:?' if c['outs'][k_] == 'se' else 'failed:RuntimeError:%d' % k_
                 corr_ok = im == {'attempts': model['attempts'], 'result': mr}
         else:
             lines = c['lines'] or []
